@@ -6,6 +6,7 @@ CONSTANTS
   Kinds = {"pos"}
   UrgentAsync = FALSE
   RecLimit = 0
+  MaxChecks = 1
   Servers = {FALSE, TRUE}
 VIEW View
 INVARIANTS TypeOK C01 C02 C03 C10 C16 PosConsistent
